@@ -62,7 +62,7 @@ def run(ctx):
         b = bundle.Bundle(m["name"], txt, [n for n, _ in m["types"]])
         try: exe = b.build()
         except Exception as e:
-            stats["build_failed"] += 1; b.cleanup(); continue
+            stats["build_failed"] += 1; ctx.module_not_built(m, e); b.cleanup(); continue
         vg = genmod.ValGen(ctx.rng, env)
         # 1. valid encodings from C itself
         enc_lines, meta = [], []
